@@ -27,6 +27,12 @@ type Case struct {
 }
 
 // Target is the per-property part of the harness.
+// ModelStatser is implemented by targets whose model answers carry statistics of their own (counted into
+// the evidence under extra.model_stats).
+type ModelStatser interface {
+	ModelStats(ops []string, model []string, acc map[string]int)
+}
+
 type Target interface {
 	// Generate produces the cases of one run. All randomness comes from rng.
 	Generate(rng *rand.Rand, tier string) []Case
@@ -305,6 +311,7 @@ func Check(prop string, t Target, driverPath string, seed int64, tier string, co
 		idx int
 		c   Case
 	}
+	modelStats := map[string]int{}
 	ch := make(chan item)
 	var mu sync.Mutex
 	var wg sync.WaitGroup
@@ -329,6 +336,9 @@ func Check(prop string, t Target, driverPath string, seed int64, tier string, co
 				bad, kind, impl, model, fd, msg := fails(t, d, it.c.Ops)
 				nt := t.Nontrivial(it.c.Ops, impl)
 				mu.Lock()
+				if ms, ok := t.(ModelStatser); ok {
+					ms.ModelStats(it.c.Ops, model, modelStats)
+				}
 				res.Ops += len(it.c.Ops)
 				for i, o := range it.c.Ops {
 					f := strings.Fields(o)
@@ -374,6 +384,9 @@ func Check(prop string, t Target, driverPath string, seed int64, tier string, co
 	wg.Wait()
 	if firstErr != nil {
 		return nil, firstErr
+	}
+	if len(modelStats) > 0 {
+		res.Extra["model_stats"] = modelStats
 	}
 	if len(res.Samples) == 0 && len(cases) > 0 {
 		c := cases[len(cases)-1]
